@@ -135,6 +135,38 @@ theorem klt_hypotheses {o : ScoreOps S} (ho : LawfulOps o) (p : Plan) {hits : Li
     StrictOrd (klt o p) ∧ TotalOn (klt o p) hits ∧ Sorted (klt o p) (isort (klt o p) hits) :=
   ⟨klt_strictOrd ho p, klt_totalOn ho p hn, isort_sorted (klt_strictOrd ho p) hits⟩
 
+/-! ### the whole request -/
+
+/-- when the fetch depth covers every match (and the sort is not the per-segment fast path, and
+scores are computed), what reaches post-processing is the full ranking: the code's hits, groups,
+inner hits, `total_groups` and cursor are the statement's -/
+theorem mech_eq_spec_all_fetched_partial (o : ScoreOps S) (r : Req S) (matched : List (Hit S))
+    (hsc : scoresComputed r = true) (hnf : isFast r.plan = false) (hresc : r.rescore = none)
+    (hall : (afterCursor (klt o r.plan) r.cursor matched).length ≤ topKOf r) :
+    (search o r matched).hits = (Spec.search o r matched).hits ∧
+    (search o r matched).totalGroups = (Spec.search o r matched).totalGroups ∧
+    (search o r matched).next = (Spec.search o r matched).next ∧
+    (search o r matched).total = (Spec.search o r matched).total := by
+  have hseen : matched.map (seen o r) = matched := by
+    have : seen o r = id := by funext h; simp [seen, hsc]
+    rw [this, List.map_id]
+  have hfetch : fetch (klt o r.plan) false r.explain (topKOf r) r.nseg
+      (afterCursor (klt o r.plan) r.cursor matched) =
+      isort (klt o r.plan) (afterCursor (klt o r.plan) r.cursor matched) := by
+    unfold fetch topK
+    simp only [Bool.false_eq_true, if_false]
+    split
+    · rfl
+    · exact List.take_of_length_le (by rw [length_isort]; exact hall)
+  unfold search Spec.search
+  simp only [hseen, hnf, hfetch]
+  have hpost : ∀ X, post o r (rescore o) X = post o r (rescoreSpec o) X := by
+    intro X
+    unfold post rescored
+    rw [hresc]
+  rw [hpost]
+  simp
+
 /-! ### non-vacuity and negative witnesses (integer scores) -/
 
 private def mk (doc : Nat) (score : Int) (n : Option Int) (g : Option Nat) (seg : Nat := 0) : Hit Int :=
@@ -176,6 +208,13 @@ private def matchedRep : List (Hit Int) :=
   [mk 0 10 none (some 1), mk 1 9 none (some 1), mk 2 8 none (some 1), mk 3 7 none (some 3),
    mk 4 1 none (some 3) (seg := 1)]
 private def reqRep : Req Int := { baseReq with limit := 2, nseg := 2, collapse := some ⟨none⟩ }
+
+/-- non-vacuity of `mech_eq_spec_all_fetched_partial`: sort by the field then `_score`, limit 5
+covers the four matches -/
+example :
+    let r := { reqInner with plan := [⟨.fld 0, false⟩, ⟨.score, true⟩], limit := 5 }
+    (search intOps r matchedInner).hits = (Spec.search intOps r matchedInner).hits :=
+  (mech_eq_spec_all_fetched_partial intOps _ matchedInner (by decide) (by decide) rfl (by decide)).1
 
 /-- **negative witness** (statement over all matching documents vs the code): limit 1 fetches
 2 hits; the group of the top hit has three more members, `inner_hits.size = 3` returns one -/
